@@ -259,6 +259,15 @@ def lru_rule(ctx: Ctx) -> None:
     else:
         elts = ("Sub(Sub(len(P0.lru), 1), P0.lru.index(_c0))", "Sub(Sub(P0.associativity, 1), P0.lru.index(_c0))")
     ok = len(got) == 1 and got[0] in {f"ListComp({e} for _c0 in {i})" for e in elts for i in its}
+    if not ok and young == "back" and len(got) == 1:
+        # the inverse permutation filled in place: ages = [0] * n; for position, block in enumerate(order): ages[block] = position
+        import re as _re2
+        base = got[0]
+        fills = [(rfl.canon(e_.expr), rfl.canon_cond(e_.cond)) for e_ in rfl.effects if e_.kind == "store"]
+        sized = base in ("Mult(P0.associativity, [0])", "Mult(len(P0.lru), [0])", "Mult(P0.associativity, [None])", "Mult(len(P0.lru), [None])")
+        E_ = "ELEM1.0(enumerate(P0.lru))"
+        ok = sized and len(fills) == 1 and _re2.sub(r"@\d+", "", fills[0][0]) == f"{base}[{E_}[1]] := {E_}[0]" and fills[0][1] == "LOOP1" \
+            and not [e_ for e_ in rfl.effects if e_.kind not in ("store",)]
     r.check(ok, "LRU.get_repr", rep.loc(), f"reported ages are not the position counted from the victim end (0 = replaced next): {got}")
 
 
